@@ -1,5 +1,9 @@
 import ZenonVerif.Model.Versioned
 import ZenonVerif.Lemmas.KvLogic
+import ZenonVerif.Lemmas.KvOrder
+import ZenonVerif.Lemmas.LdbInv
+import ZenonVerif.Lemmas.KvChanges
+import ZenonVerif.Lemmas.ViewScan
 /-
 C07 — versioned store: a view at commit X shows exactly the state as of X. Property theorems only.
 (C06-T2 `rollback_exact` lives in Props/C06.lean.)
@@ -12,23 +16,7 @@ open ZV ZV.Kv ZV.KvLogic ZV.Versioned
     patch `rollbackPatch cur p` is folded into the overlay without overriding) it still shows `sX`. -/
 theorem view_step (sX cur : Store) (o : Overlay) (p : Patch)
     (h : viewOf o cur = sX) :
-    viewOf (woP o (rollbackPatch cur p)) (applyP cur p) = sX := by
-  funext x
-  have hx : viewOf o cur x = sX x := congrFun h x
-  simp only [viewOf] at hx ⊢
-  cases ho : o x with
-  | some y =>
-    rw [woP_keep _ _ _ _ ho]
-    simpa [ho] using hx
-  | none =>
-    simp only [ho] at hx
-    by_cases hm : x ∈ keys p
-    · rw [woP_rollback_fresh cur p o x hm ho]; exact hx
-    · have hm' : x ∉ keys (rollbackPatch cur p) := by
-        simpa [keys, rollbackPatch, List.map_map, Function.comp_def, undoOp_key] using hm
-      rw [woP_not_mem _ _ _ hm', ho]
-      simp only []
-      rw [applyP_not_mem p cur x hm]; exact hx
+    viewOf (woP o (rollbackPatch cur p)) (applyP cur p) = sX := viewOf_step sX cur o p h
 
 /-- the frontier after a list of commits -/
 def frontierAfter (s : Store) : List Patch → Store
@@ -74,6 +62,342 @@ theorem write_visible (top : Raw) (o : Op) (x : Bytes) :
   cases o with
   | put k v => simp only [applyOp, Op.key]; by_cases h : x = k <;> simp [h]
   | del k => simp only [applyOp, Op.key]; by_cases h : x = k <;> simp [h]
+
+
+/-! ### T5 — the merged iterator and the scans of the two kinds of roots -/
+
+/-- T5 `merged_scan_correct`: over layers in key order, the merged iterator of the two prefix iterators
+    (first layer wins on equal keys) is the key-ordered list of exactly the entries `(k, v)` with `k` under the
+    prefix and `v` the answer of the merged lookup (`mergedDB.Get`) for `k`. -/
+theorem merged_scan_correct {a b : Raw} (ha : Sorted a) (hb : Sorted b) (p : Bytes) :
+    OrderedEntries (merge2 (rscan a p) (rscan b p)) (fun k v => isPrefix p k = true ∧ mget2 a b k = some v) :=
+  merged_scan_entries ha hb p
+
+/-- T5, iterator form: merging the prefix iterators = prefix iterator of the merge -/
+theorem merged_scan_commutes {a b : Raw} (ha : Sorted a) (hb : Sorted b) (p : Bytes) :
+    merge2 (rscan a p) (rscan b p) = rscan (merge2 a b) p := merge2_rscan ha hb p
+
+/-- the specification `OrderedEntries l P` determines the list `l` -/
+theorem scan_spec_unique {l l' : Raw} {P : Bytes → Bytes → Prop}
+    (h : OrderedEntries l P) (h' : OrderedEntries l' P) : l = l' := h.unique h'
+
+/-- the merged lookup agrees with the merged iterator, key by key -/
+theorem merged_get_scan_agree {a b : Raw} (ha : Sorted a) (hb : Sorted b) (k : Bytes) :
+    rget (merge2 a b) k = mget2 a b k := rget_merge2 ha hb k
+
+/-- scan through a historical root (rollback overlay over the frontier snapshot, skipDeleted, enableDelete):
+    the key-ordered list of exactly the entries of the viewed version under the prefix — EXCEPT those holding
+    the empty value (known finding F3b: `skipDeletedIterator` drops raw values of length ≤ 1, i.e. tombstones
+    and present-but-empty values alike). -/
+theorem hist_scan_spec_partial {rb base : Raw} (hrb : Sorted rb) (hbase : Sorted base) (p : Bytes) :
+    OrderedEntries (edEntries ((Root.hist rb base).rawScan p))
+      (fun k v => isPrefix p k = true ∧ viewOf (oabs rb) (abs base) k = some v ∧ v ≠ []) :=
+  hist_scan_entries hrb hbase p
+
+/-- scan through the frontier root: the key-ordered list of exactly the entries under the prefix -/
+theorem front_scan_spec {base : Raw} (hbase : Sorted base) (p : Bytes) :
+    OrderedEntries (edEntries ((Root.front base).rawScan p))
+      (fun k v => isPrefix p k = true ∧ abs base k = some v) :=
+  front_scan_entries hbase p
+
+/-- N2 (F3b, general form): a key that holds the empty value in the viewed version is found by `Get`/`Has`
+    but is missing from every scan of the historical view. -/
+theorem hist_scan_drops_empty_value {rb base : Raw} (hrb : Sorted rb) (hbase : Sorted base) (p k : Bytes)
+    (hk : (Root.hist rb base).get k = some []) :
+    ∀ v, (k, v) ∉ edEntries ((Root.hist rb base).rawScan p) := by
+  intro v hv
+  have h := ((hist_scan_spec_partial hrb hbase p).2 k v).1 hv
+  rw [hist_get_refines] at hk
+  rw [hk] at h
+  exact h.2.2 (Option.some.inj h.2.1).symm
+
+/-- N2 (F3b, concrete witness): key `[9]` holds the empty value at X; a later commit created key `[11]`.
+    The view at X answers `Get [9] = ""` but its scan is empty, whereas the same content scanned at the frontier
+    root lists the key. -/
+theorem hist_scan_drops_empty_value_witness :
+    let rb : Raw := [([11], [])]
+    let base : Raw := [([9], [0]), ([11], [0, 1])]
+    (Root.hist rb base).get [9] = some [] ∧
+    edEntries ((Root.hist rb base).rawScan []) = [] ∧
+    edEntries ((Root.front [([9], [0])]).rawScan []) = [([9], [])] := by
+  refine ⟨by decide, ?_, by decide⟩
+  simp [Root.rawScan, rscan, isPrefix, merge2, bytesLt, skipDel, edEntries]
+
+
+/-! ### the executable manager (`Ldb` = ldbManager without caches) over arbitrary operation sequences
+
+`Reach s h` (Lemmas/LdbInv.lean): `s` is reachable from the empty store by any sequence of commits on the
+frontier (`Ldb.add s.frontierId …` with height = frontier height + 1 < 2^64, a hash not used on the chain, user
+keys outside the hash-index prefix), commits on any other parent, and pops; `h` is the ghost history of the
+current chain, newest first; `v.store` is the logical content (meta keys included) at the moment `v` was
+committed: `applyP (content of the predecessor) (ops ++ frontierOps id)`. -/
+
+/-- the frontier of a reachable state holds the content and the identifier of the newest version -/
+theorem frontier_refines {s : Ldb} {h : List Ver} (hr : Reach s h) :
+    (∀ k, (Root.front s.frontier).get k = topStore h k) ∧ s.frontierId = topId h ∧ Sorted s.frontier :=
+  ⟨fun k => congrFun hr.inv.inv0.front k, hr.inv.inv0.frontierId, hr.inv.inv0.sorted⟩
+
+/-- T1 `view_refines` (executable manager, lookup): in every reachable state, `Get(id)` of every version on the
+    chain succeeds, and the returned view reads — for EVERY key — exactly what the store held when that version
+    was committed, whatever was committed, refused or popped afterwards. -/
+theorem view_refines {s : Ldb} {h : List Ver} (hr : Reach s h) {v : Ver} (hv : v ∈ h) :
+    ∃ r, s.get v.id = some r ∧ ∀ k, r.get k = v.store k := by
+  obtain ⟨r, hg, hget, _⟩ := hr.inv.view hv
+  exact ⟨r, hg, fun k => congrFun hget k⟩
+
+/-- T1, existence test (`Has`) -/
+theorem view_refines_has {s : Ldb} {h : List Ver} (hr : Reach s h) {v : Ver} (hv : v ∈ h) :
+    ∃ r, s.get v.id = some r ∧ ∀ k, (r.get k).isSome = (v.store k).isSome := by
+  obtain ⟨r, hg, hget⟩ := view_refines hr hv
+  exact ⟨r, hg, fun k => by rw [hget k]⟩
+
+/-- T1, ordered scan: the scan of the view at `v` under prefix `p` is the key-ordered list of exactly the entries
+    of `v`'s content under `p` — except that for a version below the frontier the keys holding the empty value
+    are missing (known finding F3b; `scanSpec` spells the exception out: `v.id = topId h ∨ val ≠ []`). -/
+theorem view_refines_scan_partial {s : Ldb} {h : List Ver} (hr : Reach s h) {v : Ver} (hv : v ∈ h) (p : Bytes) :
+    ∃ r, s.get v.id = some r ∧
+      OrderedEntries (edEntries (r.rawScan p))
+        (fun k val => isPrefix p k = true ∧ v.store k = some val ∧ (v.id = topId h ∨ val ≠ [])) := by
+  obtain ⟨r, hg, _, hscan⟩ := hr.inv.view_scan hv
+  exact ⟨r, hg, hscan p⟩
+
+/-- T4 `add_parent_check`: a commit on anything but the frontier leaves the store unchanged (the call itself
+    reports success when the parent is a known version — the repository's own test needs that). -/
+theorem add_parent_check {s s' : Ldb} {prev id : Id} {ops : Patch} (hne : prev ≠ s.frontierId)
+    (ha : s.add prev id ops = some s') : s' = s := add_stale_eq hne ha
+
+/-- an identifier that is not on the current chain (unknown hash, or a known hash with another height) gets no
+    view … -/
+theorem unknown_id_refused {s : Ldb} {h : List Ver} (hr : Reach s h) {id : Id} (hz : id.isZero = false)
+    (hid : ∀ v ∈ h, v.id ≠ id) : s.get id = none := hr.inv.get_unknown hz hid
+
+/-- … and a commit on it fails with an error -/
+theorem unknown_parent_refused {s : Ldb} {h : List Ver} (hr : Reach s h) {prev : Id} (hz : prev.isZero = false)
+    (hid : ∀ v ∈ h, v.id ≠ prev) (id : Id) (ops : Patch) : s.add prev id ops = none :=
+  hr.inv.add_unknown hz hid id ops
+
+/-- T2 `view_immutable` (value level): the views handed out for the same version in two different reachable
+    states — e.g. before and after any number of later commits, refused commits and pops that keep the version on
+    the chain — agree on every lookup and every ordered scan below the frontier. (A view is a value here: it owns
+    its snapshot; aliasing of the cached overlay object is outside this model and covered by the `vdb` stream.) -/
+theorem view_immutable {s s' : Ldb} {h h' : List Ver} (hr : Reach s h) (hr' : Reach s' h') {v : Ver}
+    (hv : v ∈ h) (hv' : v ∈ h') :
+    ∃ r r', s.get v.id = some r ∧ s'.get v.id = some r' ∧ (∀ k, r.get k = r'.get k) ∧
+      (v.id ≠ topId h → v.id ≠ topId h' → ∀ p, edEntries (r.rawScan p) = edEntries (r'.rawScan p)) := by
+  obtain ⟨r, hg, hget, hscan⟩ := hr.inv.view_scan hv
+  obtain ⟨r', hg', hget', hscan'⟩ := hr'.inv.view_scan hv'
+  refine ⟨r, r', hg, hg', fun k => by rw [hget, hget'], ?_⟩
+  intro h1 h2 p
+  refine (hscan p).unique ⟨(hscan' p).1, ?_⟩
+  intro k val
+  rw [(hscan' p).2]
+  simp only [scanSpec, h1, h2]
+
+/-- the model totalises two places where the Go code dereferences a missing undo patch (the `none` branch of
+    `buildOverlay` in `Get`, and `Pop`): in every reachable state the undo patch of every height 1 … frontier height
+    is stored, so those branches are never taken for identifiers on the chain, and nothing is stored for other
+    heights. -/
+theorem rollbacks_complete {s : Ldb} {h : List Ver} (hr : Reach s h) (j : Nat) :
+    (1 ≤ j ∧ j ≤ s.frontierId.height → (lookupH s.rollbacks j).isSome = true) ∧
+    (j = 0 ∨ s.frontierId.height < j → lookupH s.rollbacks j = none) := by
+  have hf : s.frontierId.height = h.length := by
+    rw [hr.inv.inv0.frontierId, hr.inv.inv0.hchain.topHeight]
+  rw [hf]
+  exact ⟨fun hj => hr.inv.inv0.rb.isSome hr.inv.inv0.hchain j hj.1 hj.2, hr.inv.inv0.rbNone j⟩
+
+/-- T1 "for every cache state" (`I_cache`): `ldbManager.Get` may start from a cached pair (frontier `F` at caching
+    time, overlay folded up to `F`) and only fold the undo patches of the heights above `F`. If the chain at caching
+    time (`h`) is still the lower part of the current chain (`newer ++ h` — guaranteed because `Pop` purges the
+    caches), the result is the overlay the cache-free `Get` of the model builds; so `view_refines` and the scan
+    theorems hold for the cached path as well. -/
+theorem cached_overlay_sound {s s' : Ldb} {h newer : List Ver} (hr : Reach s h) (hr' : Reach s' (newer ++ h))
+    {v : Ver} (hv : v ∈ h) :
+    buildOverlay s'.rollbacks s.frontierId.height (s'.frontierId.height - s.frontierId.height)
+        (buildOverlay s.rollbacks v.id.height (s.frontierId.height - v.id.height) []) =
+      buildOverlay s'.rollbacks v.id.height (s'.frontierId.height - v.id.height) [] :=
+  hr.inv.inv0.cached_overlay hr'.inv.inv0 hv
+
+/-- N2 (F3b) on the manager: a key holding the empty value in a version below the frontier is answered by
+    `Get`/`Has` of the view but missing from its scans -/
+theorem view_scan_drops_empty_value {s : Ldb} {h : List Ver} (hr : Reach s h) {v : Ver} (hv : v ∈ h)
+    (hnf : v.id ≠ topId h) {k : Bytes} (hk : v.store k = some []) :
+    ∃ r, s.get v.id = some r ∧ r.get k = some [] ∧ ∀ p val, (k, val) ∉ edEntries (r.rawScan p) := by
+  obtain ⟨r, hg, hget, hscan⟩ := hr.inv.view_scan hv
+  refine ⟨r, hg, by rw [hget, hk], ?_⟩
+  intro p val hm
+  have := ((hscan p).2 k val).1 hm
+  simp only [scanSpec, hnf, false_or] at this
+  rw [hk] at this
+  exact this.2.2 (Option.some.inj this.2.1).symm
+
+/-- non-vacuity of `Reach`: two commits, a refused commit on the stale first version, a third commit and a pop;
+    the final state is reachable with a history of two versions, and the view at the first version still hides
+    what the second wrote -/
+example : ∃ s h v1, Reach s h ∧ h.length = 2 ∧ v1 ∈ h ∧ v1.id = ⟨1, [7]⟩ ∧
+    v1.store [9] = some [] ∧ v1.store [10] = none ∧ topStore h [10] = some [5] := by
+  let id1 : Id := ⟨1, [7]⟩
+  let id2 : Id := ⟨2, [8]⟩
+  let id3 : Id := ⟨3, [9]⟩
+  let ops1 : Patch := [Op.put [9] []]
+  let ops2 : Patch := [Op.put [10] [5], Op.del [9]]
+  have r0 := Reach.init
+  -- commit 1
+  obtain ⟨s1, a1⟩ := r0.inv.inv0.add_succeeds id1 ops1
+  have r1 := Reach.add (id := id1) (ops := ops1) r0 ⟨⟨by decide, by decide⟩, by simp, by decide⟩ a1
+  have f1 : s1.frontierId = id1 := r1.inv.inv0.frontierId
+  -- commit 2
+  obtain ⟨s2, a2⟩ := r1.inv.inv0.add_succeeds id2 ops2
+  have r2 := Reach.add (id := id2) (ops := ops2) r1
+    ⟨⟨by rw [f1], by decide⟩, by simp [commitVer, id1, id2], by decide⟩ a2
+  have f2 : s2.frontierId = id2 := r2.inv.inv0.frontierId
+  -- a commit on the stale version 1 is a no-op
+  have hne : id1 ≠ s2.frontierId := by rw [f2]; decide
+  have a3 := r2.inv.add_stale_succeeds (v := commitVer [] id1 ops1) (by simp) hne id3 []
+  have r3 := Reach.addStale r2 hne a3
+  -- commit 3 and pop it again
+  obtain ⟨s4, a4⟩ := r3.inv.inv0.add_succeeds id3 []
+  have r4 := Reach.add (id := id3) (ops := []) r3
+    ⟨⟨by rw [f2], by decide⟩, by simp [commitVer, id1, id2, id3], by simp⟩ a4
+  obtain ⟨s5, p5⟩ := r4.inv.inv0.pop_succeeds
+  have r5 := Reach.pop r4 p5
+  exact ⟨s5, _, commitVer [] id1 ops1, r5, rfl, by simp, rfl, by decide, by decide, by decide⟩
+
+
+/-! ### T3 — write isolation and change sets -/
+
+/-- T3 `changes_replay`: for a view with its own (key-ordered) top layer directly over a root, replaying the
+    view's change set onto the root's content gives exactly what the view reads — for every key. -/
+theorem changes_replay_layer {top : Raw} (hs : Sorted top) (root : Root) (k : Bytes) :
+    applyP root.get (edChanges top) k =
+      edDecode (match rget top k with | some v => some v | none => root.rawGet k) := by
+  rw [applyP_edChanges hs]
+  cases rget top k with
+  | some raw => exact (edDecode_some raw).symm
+  | none => rfl
+
+/-- the same on the driver's view tree: `Changes()` of a first-level view replayed over its root = its reads -/
+theorem changes_replay_view (vs : Views) (n : String) (top : Raw) (root : Root)
+    (hn : findNode vs n = some (.layer top none root)) (hs : Sorted top) (k : Bytes) :
+    applyP root.get (changesV vs n) k = getV vs n k := by
+  have h1 : changesV vs n = edChanges top := by
+    simp [changesV, rawChangesV, hn, rscan_nil_prefix]
+  have h2 : getV vs n k = edDecode (match rget top k with | some v => some v | none => root.rawGet k) := by
+    simp only [getV, rawGetV, hn]
+    cases rget top k <;> rfl
+  rw [h1, h2]; exact changes_replay_layer hs root k
+
+/-- every top layer a view can have (writes through `Put`/`Delete` starting from the empty memdb) is key-ordered -/
+theorem top_layer_sorted (p : Patch) : Sorted (edApply [] p) := Sorted.nil.edApply p
+
+/-- the change set of a view that received the writes `p` replays to the same logical effect as `p` -/
+theorem changes_of_writes (s : Store) (p : Patch) : applyP s (edChanges (edApply [] p)) = applyP s p := by
+  rw [applyP_edChanges_edApply Sorted.nil]; rfl
+
+/-- `changes_order_independent`: the change set depends only on the final content of the top layer, not on the
+    order (or repetition) of the writes that produced it — two write sequences leaving the same raw lookup
+    function produce the identical operation list (hence identical dumps and changes hashes). -/
+theorem changes_order_independent (p q : Patch)
+    (h : ∀ k, rget (edApply [] p) k = rget (edApply [] q) k) :
+    edChanges (edApply [] p) = edChanges (edApply [] q) := by
+  rw [sorted_ext (top_layer_sorted p) (top_layer_sorted q) h]
+
+/-- instances: writes to different keys may be swapped, an overwritten write may be dropped — anywhere in the
+    sequence — without changing the change set -/
+theorem changes_swap (pre post : Patch) (o1 o2 : Op) (hk : o1.key ≠ o2.key) :
+    edChanges (edApply [] (pre ++ o1 :: o2 :: post)) = edChanges (edApply [] (pre ++ o2 :: o1 :: post)) := by
+  simp only [edApply, List.foldl_append, List.foldl_cons]
+  have := edApplyOp_comm (top_layer_sorted pre) o1 o2 hk
+  simp only [edApply] at this
+  rw [this]
+
+theorem changes_overwrite (pre post : Patch) (o1 o2 : Op) (hk : o1.key = o2.key) :
+    edChanges (edApply [] (pre ++ o1 :: o2 :: post)) = edChanges (edApply [] (pre ++ o2 :: post)) := by
+  simp only [edApply, List.foldl_append, List.foldl_cons]
+  have := edApplyOp_overwrite (top_layer_sorted pre) o1 o2 hk
+  simp only [edApply] at this
+  rw [this]
+
+/-- T3 on the manager: committing the change set of a view opened on the frontier installs exactly what that view
+    read (then the three bookkeeping writes of `SetFrontier` on top) -/
+theorem commit_installs_view {s s' : Ldb} {h : List Ver} (hr : Reach s h) {top : Raw} (hs : Sorted top)
+    (id : Id) (ha : s.add s.frontierId id (edChanges top) = some s') (k : Bytes) :
+    abs s'.frontier k =
+      applyP (fun x => edDecode (match rget top x with | some v => some v | none => rget s.frontier x))
+        (frontierOps id) k := by
+  have he := hr.inv.inv0.add_eq id (edChanges top) ha
+  subst he
+  simp only []
+  rw [abs_edApply, applyP_append]
+  congr 2
+  funext x
+  exact changes_replay_layer hs (Root.front s.frontier) x
+
+/-- the stored redo patch (`GetPatch`) of every version on the chain is that version's patch, and replaying the
+    chain's patches oldest-first from the empty store reproduces the frontier content. (Model level only: the
+    `patches` table follows the Go code but is not exercised by the `vdb` stream.) -/
+theorem patches_replay {s : Ldb} {h : List Ver} (hr : Reach s h) :
+    (∀ v ∈ h, lookupH s.patches v.id.height = some v.patch) ∧
+    (h.reverse.map Ver.patch).foldl applyP Store.empty = abs s.frontier := by
+  refine ⟨fun v hv => hr.inv.inv0.pt.mem hv, ?_⟩
+  rw [hr.inv.inv0.hchain.replay, hr.inv.inv0.front]
+
+example : edChanges (edApply [] [Op.put [5] [1], Op.del [3], Op.put [5] [], Op.put [4] [9]]) =
+    [Op.del [3], Op.put [4] [9], Op.put [5] []] := by decide
+
+
+/-! ### scans through a view that has its own writes (what block processing uses) -/
+
+/-- the driver's view tree, first-level view: its reads and scans are `layerGet` / `layerRawScan` -/
+theorem view_tree_layer (vs : Views) (n : String) (top : Raw) (root : Root)
+    (hn : findNode vs n = some (.layer top none root)) :
+    (∀ k, getV vs n k = layerGet top root k) ∧ (∀ p, scanV vs n p = edEntries (layerRawScan top root p)) := by
+  constructor
+  · intro k; simp only [getV, rawGetV, hn, layerGet, layerRawGet]; cases rget top k <;> rfl
+  · intro p; simp only [scanV, rawScanV, hn, layerRawScan]
+
+/-- ordered scan through a view with private writes over any root: the key-ordered list of exactly the entries the
+    view reads under the prefix — over a historical root, minus the keys not written by the view itself that
+    hold the empty value (F3b). -/
+theorem layer_scan_spec_partial {top : Raw} (hs : Sorted top) {root : Root} (hw : root.WF) (p : Bytes) :
+    OrderedEntries (edEntries (layerRawScan top root p))
+      (fun k v => isPrefix p k = true ∧ layerGet top root k = some v ∧
+        ((rget top k).isSome = true ∨ root.isHist = false ∨ v ≠ [])) :=
+  layer_scan_entries hs hw p
+
+/-- full strength over the frontier snapshot: scan = key-ordered entries of the view's reads -/
+theorem frontier_layer_scan_spec {top base : Raw} (hs : Sorted top) (hb : Sorted base) (p : Bytes) :
+    OrderedEntries (edEntries (layerRawScan top (Root.front base) p))
+      (fun k v => isPrefix p k = true ∧ layerGet top (Root.front base) k = some v) := by
+  have h := layer_scan_entries hs (root := Root.front base) hb p
+  refine ⟨h.1, fun k v => (h.2 k v).trans ?_⟩
+  simp [Root.isHist]
+
+/-- manager level: a view opened on the frontier of a reachable state that then received the writes `ops` reads
+    `applyP (frontier content) ops` on every key, and every ordered prefix scan of it is the key-ordered list of
+    exactly those entries (no exception at the frontier). -/
+theorem frontier_view_refines {s : Ldb} {h : List Ver} (hr : Reach s h) (ops : Patch) :
+    ∃ r, s.get s.frontierId = some r ∧
+      (∀ k, layerGet (edApply [] ops) r k = applyP (topStore h) ops k) ∧
+      (∀ p, OrderedEntries (edEntries (layerRawScan (edApply [] ops) r p))
+        (fun k v => isPrefix p k = true ∧ applyP (topStore h) ops k = some v)) := by
+  obtain ⟨r, hg, hget, hshape⟩ := hr.inv.inv0.get_frontier
+  have hreads : ∀ k, layerGet (edApply [] ops) r k = applyP (topStore h) ops k := by
+    intro k
+    have := changes_replay_layer (top_layer_sorted ops) r k
+    rw [hget] at this
+    rw [changes_of_writes] at this
+    rw [this]
+    simp only [layerGet, layerRawGet]
+    cases rget (edApply [] ops) k <;> rfl
+  have hw : r.WF ∧ r.isHist = false := by
+    rcases hshape with ⟨rfl, _⟩ | rfl
+    · exact ⟨trivial, rfl⟩
+    · exact ⟨hr.inv.inv0.sorted, rfl⟩
+  refine ⟨r, hg, hreads, ?_⟩
+  intro p
+  have hsc := layer_scan_entries (top_layer_sorted ops) hw.1 p
+  refine ⟨hsc.1, fun k v => (hsc.2 k v).trans ?_⟩
+  simp only [hreads, hw.2, true_or, or_true, and_true]
 
 /-- non-vacuity: a concrete two-commit history; the view at the first version hides the later write and deletion -/
 example :
